@@ -226,7 +226,12 @@ pub struct Exec {
     pub cancel: Option<CancelPlan>,
     pub spurious_permille: u32,
     prev: Option<Arc<Shared>>,
+    last_front: Option<usize>,
+    front_waited: u32,
 }
+
+/// a runnable task is scheduled after at most this many decisions (bounded fairness)
+const FAIR_BOUND: u32 = 48;
 
 impl Exec {
     pub fn new(seed: u64, policy: Policy, est_steps: u64) -> Exec {
@@ -271,6 +276,8 @@ impl Exec {
             cancel: None,
             spurious_permille: 0,
             prev,
+            last_front: None,
+            front_waited: 0,
         }
     }
 
@@ -306,7 +313,17 @@ impl Exec {
         if n > 1 {
             self.multi_choice += 1;
         }
-        let idx = match self.policy {
+        // bounded fairness: the queue is in wake order, so the front task has waited longest; priority and
+        // LIFO policies would otherwise starve it forever next to an always-runnable task
+        let front = g.ready[0] as usize;
+        if self.last_front == Some(front) {
+            self.front_waited += 1;
+        } else {
+            self.last_front = Some(front);
+            self.front_waited = 0;
+        }
+        let force_front = self.front_waited >= FAIR_BOUND;
+        let idx = if force_front { 0 } else { match self.policy {
             Policy::Uniform => self.rng.below(n as u64) as usize,
             Policy::Pct(_) => {
                 let mut best = 0usize;
@@ -337,7 +354,11 @@ impl Exec {
                     n - 1
                 }
             }
-        };
+        } };
+        if idx == 0 {
+            self.last_front = None;
+            self.front_waited = 0;
+        }
         let id = g.ready.remove(idx)?;
         g.queued[id as usize] = false;
         Some(id)
